@@ -14,6 +14,7 @@ echo "|---|---|---|---|---|---|" >> "$tmp"
 bad=0
 for d in seeded/$pat/; do
   id=$(basename "$d"); prop=${id%%-*}
+  case "$id" in D*) prop=$(python3 -c 'import json,sys; print(json.load(open(sys.argv[1]))["breaks_property"].split()[0])' "$d/meta.json") ;; esac
   [ -f "$d/patch.diff" ] || continue
   kind=$(case "$id" in *-b*) echo benign ;; *) echo breaking ;; esac)
   line=$(MUTANT_BASELINE=0 tools/try_mutant.sh "$d/patch.diff" "$prop" 2>&1 | grep "^$prop rc=")
